@@ -281,6 +281,28 @@ func C20(run *Run) {
 				run.Nontrivial(hashOf([]any{cs.Model, cs.Tuples, q, kind, dl, cancelAt}))
 			}
 		}
+		if scripted {
+			// the answers alone, many times over (no census): whatever the moment the deadline or the
+			// cancellation arrives, the decision is the right one or the request fails
+			for i := 0; i < run.Pick(400, 1500); i++ {
+				dl := []time.Duration{10 * time.Second, 3 * time.Millisecond, 300 * time.Microsecond, 100 * time.Microsecond}[r.Intn(4)]
+				ctx, cancel := context.WithTimeout(bg, dl)
+				cancelAt := 0
+				if r.Intn(2) == 0 {
+					cancelAt = 1 + r.Intn(30)
+					cds.Arm(cancelAt, cancel)
+				}
+				q := reqs[r.Intn(len(reqs))]
+				e := &CheckEv{Eng: []string{"v1:weight2", "v1:recursive", "server"}[i%3], O: q.O, R: q.R, U: q.U, Ctx: q.Ctx}
+				start := time.Now()
+				v.Base.RunCheck(ctx, e, ts, mg)
+				wall := time.Since(start)
+				cancel()
+				triggered, _ := cds.Disarm()
+				rec.Add(withRes(e, &resInfo{Deadline: int(dl / time.Millisecond), Slack: c20Slack, Wall: int(wall / time.Millisecond), Imposed: dl < 10*time.Second || triggered, CancelAt: cancelAt}, ""))
+				run.Evals++
+			}
+		}
 		if c < 2 {
 			run.AddSample(rec.Events[len(rec.Events)-1])
 		}
